@@ -39,6 +39,12 @@ CLAIMS = {
  "C19": ("growth-site audit: every append on memory reachable from a conversation is matched against a closed table and its bounding partner is verified structurally (drain post-dominance, find-or-add, eviction reachability, replace-not-extend); must-pass-through of authentication before history growth",
          "Structural necessary condition of bounded state: no unclassified growth site; each known site has its drain/eviction/replace partner; histories grow only from authenticated messages or own sends; every generated message drains the disclosure queue. Actual byte sizes are not decided.",
          "DESIGN.md §4/C19"),
+ "C14": ("value-term checks of the sender arithmetic and piece assembly, integer-narrowing audit, truth-table extraction of the four fragment predicates and of the case order in receiveFragment by path enumeration over operand orderings, CFG typestate (reset before dispatch, reset on non-fragment messages)",
+         "Structural necessary conditions of lossless, bounded, exactly-once fragmentation: piece arithmetic without narrowing and with the specified guards and layout; receiver decision table equals the specification on all orderings; stores only after prefix/tag and fragment parse; completed stream dispatched once with the context reset first; unfragmented messages reset the context. Byte-exact reassembly as an executed round trip is not decided.",
+         "DESIGN.md §4/C14"),
+ "C20": ("effect analysis over access paths: writes, wipes, in-place appends and mutating library calls on memory rooted at package-level variables, outside init; capacity-safety proof obligations for appends on package-level slices; reviewed table for library calls receiving package-level pointers",
+         "Structural sufficient-in-shape condition: no function outside init writes package-level memory (sync.Once excepted), appends on package-level slices always copy, package-level pointers reach only read-only library calls. Hence no shared mutable state between conversations. Races inside the runtime/crypto packages or callbacks, and sharing one Conversation between goroutines, are outside the claim.",
+         "DESIGN.md §4/C20"),
 }
 
 NA = {}
